@@ -9,7 +9,8 @@ V = os.path.dirname(os.path.dirname(os.path.abspath(__file__)))
 sys.path.insert(0, V)
 from olsa.anchors import repo_names  # noqa: E402
 
-names = repo_names("/repo")
+idents, strs = repo_names("/repo", split=True)
+names = idents | strs
 asdl_words = set()
 for k in dir(ast):
     c = getattr(ast, k)
@@ -50,7 +51,7 @@ for root, _d, files in os.walk(os.path.join(V, "olsa")):
                     text = re.sub(r"[A-Za-z_0-9]+(?:-[A-Za-z_0-9]+)+", " ", text)
                 for tok in re.findall(r"[A-Za-z_][A-Za-z0-9_]*", text):
                     if tok in names and tok not in generic and len(tok) >= 4:
-                        found.add(tok)
+                        found.add(tok if tok in idents else "~" + tok)
         if found:
             out[mod] = sorted(found)
 json.dump(out, open(os.path.join(V, "olsa", "anchors.json"), "w"), indent=1, sort_keys=True)
